@@ -78,6 +78,7 @@ Definition good_res (d : N) (r : res) : Prop := built_for r = d /\ dirty r = fal
 Definition good_pc (s : pc) : Prop :=
   match s with
   | Holding r tag => built_for r = tag
+  | GBReset r tag _ => built_for r = tag
   | GBPush r tag _ => built_for r = tag /\ dirty r = false
   | _ => True
   end.
@@ -100,15 +101,20 @@ Definition good_out (d : N) (o : out) : Prop :=
 
 Ltac fin := simpl; repeat split; simpl; auto; try (apply set_nth_Forall; auto; simpl; auto); try solve [constructor].
 
-Lemma J_gstep s e : J s -> J (fst (gstep s e)) /\ good_out (disc (pl (fst (gstep s e)))) (snd (gstep s e)).
+(* set_discriminant is the one public entry point that is outside the theorems (a caller that
+   moves the generation by hand without draining the queue) *)
+Definition ev_ok (e : ev) : Prop :=
+  match e with Step _ (CiSetDisc _) _ _ => False | _ => True end.
+
+Lemma J_gstep s e : ev_ok e -> J s -> J (fst (gstep s e)) /\ good_out (disc (pl (fst (gstep s e)))) (snd (gstep s e)).
 Proof.
-  destruct s as [p f l]. intros [J1 J2]. simpl in J1, J2.
+  destruct s as [p f l]. intros Hok [J1 J2]. simpl in J1, J2.
   destruct e as [t ci ch w|t|t]; cbn [gstep pl fresh_id ths].
   - destruct (nth_error l t) as [c|] eqn:En; [|fin].
     pose proof (nth_error_Forall _ _ _ _ J2 En) as Hc.
-    destruct c as [| | |r tag|r tag c].
+    destruct c as [| | |r tag|r tag c|r tag c|r c].
     + (* Idle *)
-      destruct ci; cbn [step].
+      destruct ci; cbn [step]; try (simpl in Hok; contradiction).
       * fin.
       * unfold pop_or_wait. destruct p as [d q sz]. simpl in *. destruct q as [|r q]; [fin|].
         inversion J1 as [|? ? [Hb Hd] Hq]; subst. fin.
@@ -116,33 +122,48 @@ Proof.
         pose proof (good_start_fill (disc p + 1) (size p) f) as G. rewrite Es in G. fin.
       * fin. rewrite Forall_forall in *. intros x Hx. apply in_map_iff in Hx. destruct Hx as [y [<- Hy]].
         destruct (J1 y Hy) as [Hb _]. split; simpl; auto.
+      * fin.
+      * fin.
+      * fin.
     + (* Waiting *) cbn [step]. fin.
     + (* Woken *)
       cbn [step]. unfold pop_or_wait. destruct p as [d q sz]. simpl in *. destruct q as [|r q]; [fin|].
       inversion J1 as [|? ? [Hb Hd] Hq]; subst. fin.
     + (* Holding *)
       destruct ch; cbn [step]; fin.
+    + (* GBReset *)
+      cbn [step]. fin.
     + (* GBPush *)
-      cbn [step]. destruct (after c f) as [s' f'] eqn:Ea.
-      assert (Gs : good_pc s') by (pose proof (good_after c f) as G; rewrite Ea in G; exact G).
+      cbn [step].
       destruct (is_full p); [fin|].
       destruct (negb (disc p =? tag)) eqn:Ed; [fin|].
+      destruct (after c f) as [s' f'] eqn:Ea.
+      assert (Gs : good_pc s') by (pose proof (good_after c f) as G; rewrite Ea in G; exact G).
       apply negb_false_iff, N.eqb_eq in Ed. simpl. repeat split; auto.
       * apply Forall_app. split; auto. constructor; [|constructor].
         destruct Hc as [Hb Hd]. unfold good_res, set_queue; simpl. split; congruence.
       * apply notify_one_Forall; [exact I|]. apply set_nth_Forall; auto.
+    + (* GBDiscard *)
+      cbn [step]. destruct (after c f) as [s' f'] eqn:Ea.
+      assert (Gs : good_pc s') by (pose proof (good_after c f) as G; rewrite Ea in G; exact G).
+      fin.
   - destruct (nth_error l t) as [[]|] eqn:En; fin.
   - destruct (nth_error l t) as [[]|] eqn:En; fin.
 Qed.
 
-Lemma J_exec s sched : J s -> J (exec s sched).
-Proof. revert s. induction sched as [|e r IH]; intros s H; simpl; auto. apply IH. apply J_gstep. exact H. Qed.
-
-Lemma J_trace s sched : J s -> forall x, In x (trace s sched) -> J (fst x) /\ good_out (disc (pl (fst x))) (snd x).
+Lemma J_exec s sched : Forall ev_ok sched -> J s -> J (exec s sched).
 Proof.
-  revert s. induction sched as [|e r IH]; intros s H x Hx; simpl in Hx; [contradiction|].
-  destruct Hx as [<-|Hx]; [apply J_gstep; exact H|].
-  eapply IH; [|exact Hx]. apply J_gstep. exact H.
+  revert s. induction sched as [|e r IH]; intros s Hok H; simpl; auto.
+  inversion Hok; subst. apply IH; auto. apply J_gstep; auto.
+Qed.
+
+Lemma J_trace s sched : Forall ev_ok sched -> J s ->
+  forall x, In x (trace s sched) -> J (fst x) /\ good_out (disc (pl (fst x))) (snd x).
+Proof.
+  revert s. induction sched as [|e r IH]; intros s Hok H x Hx; simpl in Hx; [contradiction|].
+  inversion Hok; subst.
+  destruct Hx as [<-|Hx]; [apply J_gstep; auto|].
+  eapply IH; [auto| |exact Hx]. apply J_gstep; auto.
 Qed.
 
 Definition fresh0 (q0 : list res) : Prop := Forall (good_res 0) q0.
@@ -153,28 +174,31 @@ Proof.
 Qed.
 
 (* ---------- the discriminant never decreases ---------- *)
-Lemma disc_gstep s e : disc (pl s) <= disc (pl (fst (gstep s e))).
+Lemma disc_gstep s e : ev_ok e -> disc (pl s) <= disc (pl (fst (gstep s e))).
 Proof.
-  destruct s as [p f l]. destruct e as [t ci ch w|t|t]; cbn [gstep pl fresh_id ths].
+  destruct s as [p f l]. intros Hok. destruct e as [t ci ch w|t|t]; cbn [gstep pl fresh_id ths].
   - destruct (nth_error l t) as [c|]; [|simpl; lia].
-    destruct c as [| | |r tag|r tag c]; cbn [step].
-    + destruct ci; simpl; try lia.
+    destruct c as [| | |r tag|r tag c|r tag c|r c]; cbn [step].
+    + destruct ci; simpl; try lia; try (simpl in Hok; contradiction).
       * unfold pop_or_wait. destruct (queue p); simpl; lia.
       * destruct (start_fill (disc p + 1) (size p) f). simpl. lia.
     + simpl. lia.
     + unfold pop_or_wait. destruct (queue p); simpl; lia.
     + destruct ch; simpl; lia.
-    + destruct (after c f). destruct (is_full p); [simpl; lia|].
-      destruct (negb (disc p =? tag)); simpl; lia.
+    + simpl; lia.
+    + destruct (is_full p); [simpl; lia|].
+      destruct (negb (disc p =? tag)); [simpl; lia|]. destruct (after c f). simpl; lia.
+    + destruct (after c f). simpl; lia.
   - destruct (nth_error l t) as [[]|]; simpl; lia.
   - destruct (nth_error l t) as [[]|]; simpl; lia.
 Qed.
 
-Lemma disc_trace s sched : forall x, In x (trace s sched) -> disc (pl s) <= disc (pl (fst x)).
+Lemma disc_trace s sched : Forall ev_ok sched -> forall x, In x (trace s sched) -> disc (pl s) <= disc (pl (fst x)).
 Proof.
-  revert s. induction sched as [|e r IH]; intros s x Hx; simpl in Hx; [contradiction|].
-  destruct Hx as [<-|Hx]; [apply disc_gstep|].
-  pose proof (disc_gstep s e). specialize (IH _ _ Hx). lia.
+  revert s. induction sched as [|e r IH]; intros s Hok x Hx; simpl in Hx; [contradiction|].
+  inversion Hok; subst.
+  destruct Hx as [<-|Hx]; [apply disc_gstep; auto|].
+  pose proof (disc_gstep s e H1). specialize (IH _ H2 _ Hx). lia.
 Qed.
 
 (* ---------- capacity ---------- *)
@@ -188,7 +212,7 @@ Lemma cap_gstep s e :
 Proof.
   destruct s as [p f l]. unfold qlen. destruct e as [t ci ch w|t|t]; cbn [gstep pl fresh_id ths].
   - destruct (nth_error l t) as [c|]; [|simpl; split; [reflexivity|left; lia]].
-    destruct c as [| | |r tag|r tag c]; cbn [step].
+    destruct c as [| | |r tag|r tag c|r tag c|r c]; cbn [step].
     + destruct ci; simpl; try (split; [reflexivity|left; lia]).
       * unfold pop_or_wait. destruct p as [d q sz]; simpl. destruct q; simpl; split; try reflexivity; left; lia.
       * destruct (start_fill (disc p + 1) (size p) f). simpl. split; [reflexivity|left; lia].
@@ -196,10 +220,13 @@ Proof.
     + simpl; split; [reflexivity|left; lia].
     + unfold pop_or_wait. destruct p as [d q sz]; simpl. destruct q; simpl; split; try reflexivity; left; lia.
     + destruct ch; simpl; split; try reflexivity; left; lia.
-    + destruct (after c f). unfold is_full. destruct (size p <=? N.of_nat (length (queue p))) eqn:Ef;
+    + simpl; split; [reflexivity|left; lia].
+    + unfold is_full. destruct (size p <=? N.of_nat (length (queue p))) eqn:Ef;
         [simpl; split; [reflexivity|left; lia]|].
-      destruct (negb (disc p =? tag)); simpl; [split; [reflexivity|left; lia]|].
+      destruct (negb (disc p =? tag)); [simpl; split; [reflexivity|left; lia]|].
+      destruct (after c f). simpl.
       apply N.leb_gt in Ef. split; [reflexivity|right]. rewrite app_length. simpl. lia.
+    + destruct (after c f). simpl; split; [reflexivity|left; lia].
   - destruct (nth_error l t) as [[]|]; simpl; split; try reflexivity; left; lia.
   - destruct (nth_error l t) as [[]|]; simpl; split; try reflexivity; left; lia.
 Qed.
@@ -219,48 +246,56 @@ Qed.
 Definition K (s : gstate) : Prop :=
   (cnt is_waiting (ths s) > 0)%nat -> (length (queue (pl s)) <= cnt is_woken (ths s))%nat.
 
+Lemma after_not_blocked c f : is_waiting (fst (after c f)) = false /\ is_woken (fst (after c f)) = false.
+Proof.
+  destruct c as [|g k]; simpl; [auto|]. unfold start_fill. destruct (k =? 0); simpl; auto.
+Qed.
+
 Lemma K_gstep s e : K s -> K (fst (gstep s e)).
 Proof.
   destruct s as [p f l]. unfold K. cbn [pl ths]. intros HK.
   destruct e as [t ci ch w|t|t]; cbn [gstep pl fresh_id ths].
   - destruct (nth_error l t) as [c|] eqn:En; [|simpl; exact HK].
-    destruct c as [| | |r tag|r tag c]; cbn [step].
+    assert (A : forall s', is_waiting c = false -> is_woken c = false ->
+                  is_waiting s' = false -> is_woken s' = false ->
+                  (cnt is_waiting (set_nth l t s') > 0)%nat ->
+                  (length (queue p) <= cnt is_woken (set_nth l t s'))%nat).
+    { intros s' E3 E4 E1 E2. pose proof (cnt_set_nth is_waiting l t _ s' En). pose proof (cnt_set_nth is_woken l t _ s' En).
+      rewrite E1, E2, E3, E4 in *. simpl in *. lia. }
+    destruct c as [| | |r tag|r tag c|r tag c|r c]; cbn [step].
     + destruct ci.
-      * simpl. pose proof (cnt_set_nth is_waiting l t _ Idle En). pose proof (cnt_set_nth is_woken l t _ Idle En).
-        simpl in *. lia.
+      * simpl. apply A; reflexivity.
       * unfold pop_or_wait. destruct p as [d q sz]; simpl in *. destruct q as [|r q]; simpl.
         -- lia.
         -- pose proof (cnt_set_nth is_waiting l t _ (Holding r d) En).
            pose proof (cnt_set_nth is_woken l t _ (Holding r d) En). simpl in *. lia.
       * destruct (start_fill (disc p + 1) (size p) f). simpl. lia.
-      * simpl. rewrite map_length.
-        pose proof (cnt_set_nth is_waiting l t _ Idle En). pose proof (cnt_set_nth is_woken l t _ Idle En).
-        simpl in *. lia.
+      * simpl. rewrite map_length. apply A; reflexivity.
+      * simpl. lia.
+      * simpl. lia.
+      * simpl. apply A; reflexivity.
+      * simpl. apply A; reflexivity.
     + simpl. pose proof (cnt_set_nth is_waiting l t _ Waiting En). pose proof (cnt_set_nth is_woken l t _ Waiting En).
       simpl in *. lia.
     + unfold pop_or_wait. destruct p as [d q sz]; simpl in *. destruct q as [|r q]; simpl.
       * lia.
       * pose proof (cnt_set_nth is_waiting l t _ (Holding r d) En).
         pose proof (cnt_set_nth is_woken l t _ (Holding r d) En). simpl in *. lia.
-    + assert (A : forall s', is_waiting s' = false -> is_woken s' = false ->
-                  (cnt is_waiting (set_nth l t s') > 0)%nat ->
-                  (length (queue p) <= cnt is_woken (set_nth l t s'))%nat).
-      { intros s' E1 E2. pose proof (cnt_set_nth is_waiting l t _ s' En). pose proof (cnt_set_nth is_woken l t _ s' En).
-        rewrite E1, E2 in *. simpl in *. lia. }
-      destruct ch; simpl; apply A; reflexivity.
-    + destruct (after c f) as [s' f'] eqn:Ea.
-      assert (E1 : is_waiting s' = false /\ is_woken s' = false).
-      { destruct c as [|g k]; simpl in Ea; [injection Ea as <- <-; auto|].
-        unfold start_fill in Ea. destruct (k =? 0); injection Ea as <- <-; auto. }
-      destruct E1 as [E1 E2].
+    + destruct ch; simpl; apply A; reflexivity.
+    + simpl; apply A; reflexivity.
+    + destruct (is_full p); [simpl; apply A; reflexivity|].
+      destruct (negb (disc p =? tag)); [simpl; apply A; reflexivity|].
+      destruct (after c f) as [s' f'] eqn:Ea.
+      destruct (after_not_blocked c f) as [E1 E2]. rewrite Ea in E1, E2. simpl in E1, E2.
       pose proof (cnt_set_nth is_waiting l t _ s' En) as C1. pose proof (cnt_set_nth is_woken l t _ s' En) as C2.
       rewrite E1 in C1. rewrite E2 in C2. simpl in C1, C2.
-      destruct (is_full p); [simpl; lia|].
-      destruct (negb (disc p =? tag)); [simpl; lia|]. simpl.
-      rewrite app_length. simpl.
+      simpl. rewrite app_length. simpl.
       destruct (Nat.eq_dec (cnt is_waiting (set_nth l t s')) 0) as [Z|NZ].
       * rewrite (notify_one_none _ w Z). lia.
       * destruct (notify_one_cnt (set_nth l t s') w) as [N1 N2]; [lia|]. lia.
+    + destruct (after c f) as [s' f'] eqn:Ea.
+      destruct (after_not_blocked c f) as [E1 E2]. rewrite Ea in E1, E2. simpl in E1, E2.
+      simpl. apply A; auto.
   - destruct (nth_error l t) as [s|] eqn:En; [|simpl; exact HK].
     destruct s; simpl; try exact HK.
     pose proof (cnt_set_nth is_waiting l t _ Idle En). pose proof (cnt_set_nth is_woken l t _ Idle En).
@@ -290,7 +325,7 @@ Proof.
   destruct s as [p f l]. cbn [pl ths].
   destruct e as [t ci ch w|t|t]; cbn [gstep pl fresh_id ths].
   - destruct (nth_error l t) as [c|] eqn:En; [|simpl; lia].
-    destruct c as [| | |r tag|r tag c]; cbn [step].
+    destruct c as [| | |r tag|r tag c|r tag c|r c]; cbn [step].
     + destruct ci; simpl; try lia.
       * unfold pop_or_wait. destruct p as [d q sz]; simpl. destruct q; simpl; lia.
       * destruct (start_fill (disc p + 1) (size p) f). simpl. lia.
@@ -298,16 +333,16 @@ Proof.
     + simpl; lia.
     + unfold pop_or_wait. destruct p as [d q sz]; simpl. destruct q; simpl; lia.
     + destruct ch; simpl; lia.
-    + destruct (after c f) as [s' f'] eqn:Ea.
-      assert (E1 : is_waiting s' = false /\ is_woken s' = false).
-      { destruct c as [|g k]; simpl in Ea; [injection Ea as <- <-; auto|].
-        unfold start_fill in Ea. destruct (k =? 0); injection Ea as <- <-; auto. }
-      destruct E1 as [E1 E2].
+    + simpl; lia.
+    + destruct (is_full p); [simpl; lia|].
+      destruct (negb (disc p =? tag)); [simpl; lia|].
+      destruct (after c f) as [s' f'] eqn:Ea.
+      destruct (after_not_blocked c f) as [E1 E2]. rewrite Ea in E1, E2. simpl in E1, E2.
       pose proof (cnt_set_nth is_waiting l t _ s' En) as C1. pose proof (cnt_set_nth is_woken l t _ s' En) as C2.
       rewrite E1 in C1. rewrite E2 in C2. simpl in C1, C2.
-      destruct (is_full p); [simpl; lia|].
-      destruct (negb (disc p =? tag)); [simpl; lia|]. simpl. intros _ HW.
+      simpl. intros _ HW.
       destruct (notify_one_cnt (set_nth l t s') w) as [N1 N2]; lia.
+    + destruct (after c f). simpl; lia.
   - destruct (nth_error l t) as [[]|]; simpl; lia.
   - destruct (nth_error l t) as [[]|]; simpl; lia.
 Qed.
@@ -332,10 +367,91 @@ Lemma give_back_outcome s t ci ch w r tag c :
   (size (pl s) <= qlen s -> queue (pl s') = queue (pl s)).
 Proof.
   destruct s as [p f l]. cbn [pl ths]. intros En. cbn [gstep pl fresh_id ths]. rewrite En. cbn [step].
-  destruct (after c f) as [s' f']. unfold is_full, qlen. cbn [pl].
+  unfold is_full, qlen. cbn [pl].
   destruct (size p <=? N.of_nat (length (queue p))) eqn:Ef.
   - apply N.leb_le in Ef. simpl. repeat split; auto. intros _ H. lia.
   - apply N.leb_gt in Ef. destruct (disc p =? tag) eqn:Ed; simpl.
-    + apply N.eqb_eq in Ed. repeat split; auto; intros; try congruence; lia.
+    + destruct (after c f) as [s' f']. apply N.eqb_eq in Ed. simpl. repeat split; auto; intros; try congruence; lia.
     + apply N.eqb_neq in Ed. repeat split; auto; intros; try congruence; lia.
+Qed.
+
+(* ---------- the refresh is atomic; callbacks ---------- *)
+Definition is_clear (e : ev) : bool := match e with Step _ CiClear _ _ => true | _ => false end.
+
+(* Between two visible states (the states other threads can observe are exactly the states between
+   events): the discriminant moves only together with a complete drain, in the same step; and
+   while the discriminant stays, nothing leaves the queue except its head, handed out (clear(),
+   the legacy entry point, excepted).  So no thread ever sees a queue that is empty or partially
+   drained under the old generation because a refresh is in progress. *)
+Ltac ra := simpl; split; intros; try congruence; try contradiction; try discriminate; try lia; auto 6.
+
+Lemma refresh_atomic s e :
+  let s' := fst (gstep s e) in
+  (ev_ok e -> disc (pl s') <> disc (pl s) -> disc (pl s') = disc (pl s) + 1 /\ queue (pl s') = []) /\
+  (is_clear e = false -> disc (pl s') = disc (pl s) ->
+     queue (pl s') = queue (pl s) \/ queue (pl s') = map reset_res (queue (pl s)) \/
+     (exists r, queue (pl s) = r :: queue (pl s') /\ snd (gstep s e) = OHandout r (disc (pl s))) \/
+     (exists r, queue (pl s') = queue (pl s) ++ [r])).
+Proof.
+  destruct s as [p f l]. destruct e as [t ci ch w|t|t]; cbn [gstep pl fresh_id ths].
+  - destruct (nth_error l t) as [c|]; [|ra].
+    destruct c as [| | |r tag|r tag c|r tag c|r c]; cbn [step].
+    + destruct ci; try (ra; fail).
+      * unfold pop_or_wait. destruct p as [d q sz]; simpl. destruct q as [|r q]; [ra|].
+        simpl; split; intros; [congruence|]. right; right; left. exists r. auto.
+      * destruct (start_fill (disc p + 1) (size p) f). ra.
+    + ra.
+    + unfold pop_or_wait. destruct p as [d q sz]; simpl. destruct q as [|r q]; [ra|].
+      simpl; split; intros; [congruence|]. right; right; left. exists r. auto.
+    + destruct ch; ra.
+    + ra.
+    + destruct (is_full p); [ra|].
+      destruct (negb (disc p =? tag)); [ra|].
+      destruct (after c f). simpl. split; intros; [congruence|]. right; right; right. exists r. reflexivity.
+    + destruct (after c f). ra.
+  - destruct (nth_error l t) as [[]|]; ra.
+  - destruct (nth_error l t) as [[]|]; ra.
+Qed.
+
+(* the callbacks of a refresh: the Drop of every drained resource runs under both locks, and the
+   only other callback is the reset of the refresher's own first new resource *)
+Lemma refresh_cbs s t ch w :
+  nth_error (ths s) t = Some Idle ->
+  gstep_cbs s (Step t CiRefresh ch w) =
+    map (mkcb CbDrop true true) (queue (pl s)) ++
+    (if size (pl s) =? 0 then []
+     else [mkcb CbReset false false {| rid := fresh_id s; built_for := disc (pl s) + 1; dirty := false |}]).
+Proof.
+  destruct s as [p f l]. cbn [pl ths fresh_id gstep_cbs]. intros ->. unfold step_cbs. cbn [step].
+  unfold start_fill. destruct (size p =? 0); reflexivity.
+Qed.
+
+(* every callback either runs under the queue lock on a queued resource, or runs with no lock held
+   on the stepped thread's own resource (not queued: the thread stops in it) *)
+Definition own_cb (s' : gstate) (t : nat) (c : cb) : Prop :=
+  match nth_error (ths s') t with Some c' => pc_cb c' = [c] | None => False end.
+
+Lemma pc_cb_open s c : In c (pc_cb s) -> cb_qlock c = false /\ cb_dlock c = false /\ pc_cb s = [c].
+Proof. destruct s; simpl; try contradiction; intros [<-|[]]; auto. Qed.
+
+Lemma in_map_mkcb k ql dl q c : In c (map (mkcb k ql dl) q) ->
+  cb_qlock c = ql /\ cb_dlock c = dl /\ exists r, In r q /\ cb_rid c = rid r.
+Proof. intros H. apply in_map_iff in H. destruct H as [r [<- Hr]]. simpl. eauto. Qed.
+
+Definition pc_of (x : pool * N * pc * out * bool) : pc := let '(_, _, s', _, _) := x in s'.
+
+Lemma step_cbs_classify p f s ci ch c :
+  In c (step_cbs p f s ci ch) ->
+  (cb_qlock c = true /\ exists r, In r (queue p) /\ cb_rid c = rid r) \/
+  (cb_qlock c = false /\ cb_dlock c = false /\ pc_cb (pc_of (step p f s ci ch)) = [c]).
+Proof.
+  unfold step_cbs, pc_of. destruct (step p f s ci ch) as [[[[p' f'] s'] o] b] eqn:Es.
+  assert (Own : In c (pc_cb s') -> cb_qlock c = false /\ cb_dlock c = false /\ pc_cb s' = [c]) by apply pc_cb_open.
+  assert (Q : forall k dl, In c (map (mkcb k true dl) (queue p)) ->
+              cb_qlock c = true /\ exists r, In r (queue p) /\ cb_rid c = rid r).
+  { intros k dl H. destruct (in_map_mkcb _ _ _ _ _ H) as [A [_ B]]. auto. }
+  destruct s; try (intros H; right; auto; fail); try contradiction.
+  destruct ci; try contradiction; try (intros H; right; auto; fail);
+    try (intros H; left; eapply Q; exact H; fail);
+    (intros H; apply in_app_or in H; destruct H as [H|H]; [left; eapply Q; exact H|right; auto]).
 Qed.
